@@ -69,24 +69,50 @@ func VerifC15Copies() {
 	var entry []*Line // shallow snapshots taken on entry: same Args backing array and Tags map as handed over
 	var pristine *Line
 	var mu sync.Mutex
-	h := func(c *Conn, l *Line) {
-		mu.Lock()
-		defer mu.Unlock()
-		vAssert(vSameLine(l, pristine), "equal-on-entry")
-		e := *l
-		entry = append(entry, &e)
-		seen = append(seen, l)
-		vScribble(l)
+	panicker := -1 // which handler set's first handler panics after it has looked at (and edited) its line
+	if vParam("RECOVER", 0) == 1 {
+		// a recovery function that edits the line it is handed (say, redacting it before logging it)
+		panicker = vLen("panicker", 0, 2)
+		conn.cfg.Recover = func(c *Conn, l *Line) {
+			if r := recover(); r != nil {
+				mu.Lock()
+				vScribble(l)
+				mu.Unlock()
+			}
+		}
+	}
+	mk := func(set, idx int) HandlerFunc {
+		return func(c *Conn, l *Line) {
+			mu.Lock()
+			defer mu.Unlock()
+			vAssert(vSameLine(l, pristine), "equal-on-entry")
+			e := *l
+			entry = append(entry, &e)
+			seen = append(seen, l)
+			vScribble(l)
+			if set == panicker && idx == 0 {
+				panic("handler gives up")
+			}
+		}
 	}
 	nint, nfg, nbg := vLen("nint", 0, 1), vLen("nfg", 0, 2), vLen("nbg", 0, 2)
+	if vParam("MANY", 0) == 1 {
+		// long handler lists, around the powers of two an implementation might batch or pool by
+		n := []int{9, 17, 33}[vLen("many", 0, 2)]
+		if vLen("manyset", 0, 1) == 0 {
+			nfg = n
+		} else {
+			nbg = n
+		}
+	}
 	for i := 0; i < nint; i++ {
-		conn.handle("ev", HandlerFunc(h))
+		conn.handle("ev", mk(0, i))
 	}
 	for i := 0; i < nfg; i++ {
-		conn.HandleFunc("ev", h)
+		conn.HandleFunc("ev", mk(1, i))
 	}
 	for i := 0; i < nbg; i++ {
-		conn.HandleBG("EV", HandlerFunc(h))
+		conn.HandleBG("EV", mk(2, i))
 	}
 	nd := vParam("D", 1)
 	var originals []*Line
